@@ -343,6 +343,10 @@ def gen_attr_sanitize(rng, tier):
                             if xt and not ia:
                                 continue
                             out.append({"is_attribute": ia, "min": mn, "max": mx, "default": d, "fixed": fx and d is not None, "any_obj": ao, "xsi_type": xt})
+                            # the value is a list of tokens (restrictions.tokens: NMTOKENS / IDREFS / ENTITIES, xs:list): Attr.is_factory
+                            # without Attr.is_list — the default is one value and stays
+                            if not ao and not xt and d != "":
+                                out.append({**out[-1], "default": "t1 t2" if d else None, "tokens": True})
     for i in range(0, len(out), 4):
         yield {"attrs": out[i:i + 4]}
     for _ in range(n_cases(tier, 50, 3000)):
